@@ -60,7 +60,7 @@ static mj::Value randScalar(Rng& g) {
     case 2: return mkNode("i", INTS[g.next(sizeof INTS / sizeof *INTS)]);
     case 3: return mkNode("f", FLTS[g.next(sizeof FLTS / sizeof *FLTS)]);
     case 4: return mkNode("r", RAWS[g.next(sizeof RAWS / sizeof *RAWS)]);
-    default: return mkNode("s", STRS[g.next(sizeof STRS / sizeof *STRS)]);
+    default: return mkNode(g.coin(40) ? "l" : "s", STRS[g.next(sizeof STRS / sizeof *STRS)]);  // "l": kept by address
   }
 }
 
